@@ -115,6 +115,24 @@ func genExitPathCase(rt *rapid.T, prop string) *vcase.Case {
 			c.Script.Deploys["vp://"+k] = d
 		}
 	}
+	if path != "cancel" {
+		// The reference does not predict stop conditions; with one in the program a never-ending step
+		// could make the run wait legitimately for ever, so such steps finish here.
+		hasStop := false
+		for _, s := range c.Main.Steps {
+			if s.StopIf != nil {
+				hasStop = true
+			}
+		}
+		if hasStop {
+			for _, k := range vplug.SortedKeys(c.Script.Steps) {
+				if b := c.Script.Steps[k]; b.Outcome == "never" {
+					b.Outcome = "success"
+					c.Script.Steps[k] = b
+				}
+			}
+		}
+	}
 	c.Labels = append(c.Labels, "exit-path:"+path)
 	return c
 }
